@@ -42,6 +42,18 @@ def main():
                         rec["default"] = next(k for k, v in reg.items() if v is c.get_transport_class())
                     except Exception as e:  # noqa
                         rec["default_error"] = f"{type(e).__name__}: {e}"
+                    # asking for a transport by label: a registered label gives its class, any other label is refused
+                    rec["by_label"] = {}
+                    for label in ("grpc", "grpc_asyncio", "rest", "rest_asyncio", "nope", "GRPC", ""):
+                        if label == "":
+                            continue
+                        try:
+                            got = c.get_transport_class(label)
+                            rec["by_label"][label] = "registered" if reg.get(label) is got else f"returned {getattr(got, '__name__', got)}"
+                        except KeyError:
+                            rec["by_label"][label] = "KeyError"
+                        except Exception as e:  # noqa
+                            rec["by_label"][label] = f"{type(e).__name__}"
                 out["clients"][cname] = rec
         except Exception as e:  # noqa
             out["errors"].append(f"main: {type(e).__name__}: {e}")
